@@ -39,6 +39,26 @@ CHECKS = {
                      'referenced only by the deleted snapshots and removes nothing else, clean leaves exactly the referenced chunks of '
                      'the caller family, everything foreign keeps its bytes, also when one backend deletion fails',
                 note='fixed 8-byte chunks; foreign tenant never acts', technique='explicit-state BFS + single-fault enumeration on delete calls'),
+    'C03': dict(cat='fault_enumeration', ref='2/C03', engine='E1',
+                text='(a) every prefix of every mutation sequence of snapshot/delete/clean under all completion orders (coroutine '
+                     'backend: exhaustive; plain backend: <=1/2 deviations) gets the recovery oracle (all visible snapshots complete '
+                     'and restorable, listings, new snapshot, clean exact); (b) the real Local.upload/upload_stream/delete killed in a '
+                     'forked child at every interposed file-system step and torn write; (c) every backend call index failing for good '
+                     'with two exception kinds',
+                note='kill loses user-space buffers but not what reached the kernel; fixed 8-byte chunks; 11 scenarios',
+                technique='exhaustive crash-point / fault-position enumeration over explored schedules'),
+    'C10': dict(cat='exploration', ref='2/C10', engine='E3',
+                text='complete products: C++ next_cut rebuilt from the working tree vs scalar reference, guard-byte independence and an '
+                     'AddressSanitizer pass over every (min,max)<=10/13 x keys x buffers over a 3-word alphabet; real adapter over every '
+                     'segmentation with <=2/3 cuts (+empty pieces, one-byte pieces): lossless, non-empty, bounds, alignment, '
+                     'determinism across calls, independence from splitting',
+                note='ctypes glue replaces pybind11 conversion; small parameters only', technique='exhaustive bounded enumeration of inputs and segmentations'),
+    'C11': dict(cat='exploration', ref='2/C11', engine='E3',
+                text='every suffix over a 3-word alphabet x all pairs of aligned prefixes (coincidence after first common boundary), '
+                     'every distant byte flip (locality), a completely enumerated family of high-entropy streams x edit kinds x lengths x '
+                     'aligned positions (re-synchronisation within 1024*max), all key pairs',
+                note='re-synchronisation bound is probabilistic (<1e-33 per case under hash independence)',
+                technique='exhaustive bounded enumeration of inputs'),
 }
 NOT_YET = {}
 
@@ -78,6 +98,8 @@ m = {
         {'name': 'E2', 'path': 'mc/hist.py', 'serves_properties': ['C02', 'C06', 'C07', 'C08'],
          'kind_free_text': 'explicit-state BFS over command histories; transitions run the real commands with fresh Repository objects'},
         {'name': 'E2+E1', 'path': 'mc/hist.py + mc/explore.py', 'serves_properties': ['C02'], 'kind_free_text': 'both'},
+        {'name': 'E3', 'path': 'mc/common.py (pmap) + per-check menus', 'serves_properties': ['C10', 'C11'],
+         'kind_free_text': 'complete product enumeration of small menus, sharded over 16 processes'},
     ],
     'checks': checks,
     'not_applicable': na,
